@@ -124,16 +124,20 @@ func TestVerif_C05Pipe(t *testing.T) {
 					return
 				}
 			}
+			c.Count("pipeline_runs", 1)
 			off, _, T2, bad2 := run(false)
 			if bad2 != "" {
 				c.Violation("pipeline-failed", "throttle off", bad2)
 				return
 			}
 			if float64(off) <= bound {
+				// on a slow machine the outer stopwatch makes the bound generous; the throttled run
+				// above still stands, only the "activate=false really disables it" comparison is void
 				c.Inconclusive(fmt.Sprintf("with activate=false only %d frames were recorded in %v (bound %.1f): the unthrottled configuration was not clearly different", off, T2, bound))
-				return
+			} else {
+				c.Count("unthrottled_runs_exceeding_bound", 1)
 			}
-			c.Count("pipeline_runs", 2)
+			c.Count("pipeline_runs", 1)
 			c.Count("frames_recorded_throttled", int64(got))
 			c.Count("frames_recorded_unthrottled", int64(off))
 			c.Count("throttled_files", int64(len(files)))
